@@ -243,13 +243,22 @@ func compositeLitsOf(info *types.Info, root ast.Node, pkgpath, name string) []*a
 func litField(cl *ast.CompositeLit, field string) ast.Expr {
 	for _, el := range cl.Elts {
 		if kv, ok := el.(*ast.KeyValueExpr); ok {
-			if id, ok := kv.Key.(*ast.Ident); ok && id.Name == field {
-				return kv.Value
+			if id, ok := kv.Key.(*ast.Ident); ok {
+				if id.Name == field {
+					return kv.Value
+				}
+				// a renamed anchor field keeps the name the rules know it by
+				if fv, ok := usesLookup(id).(*types.Var); ok && fv.IsField() && fieldCanon(fv) == field {
+					return kv.Value
+				}
 			}
 		}
 	}
 	return nil
 }
+
+// usesLookup resolves an identifier of any loaded module package (set per run).
+var usesLookup = func(id *ast.Ident) types.Object { return nil }
 
 // selectsConst reports whether e is a (possibly qualified) reference to the constant/var pkgpath.name.
 func refersTo(info *types.Info, e ast.Expr, pkgpath, name string) bool {
@@ -309,4 +318,244 @@ func inspectNoLit(root ast.Node, f func(ast.Node) bool) {
 		}
 		return f(n)
 	})
+}
+
+// pureStringFuncs are module functions whose result depends only on their arguments.
+var pureModuleFuncs = map[string]bool{"ChanToLower": true, "NickToLower": true}
+
+var aliasesFor *load.Program
+
+// computeAliases fills astx.Alias for the loaded program (see there).
+func computeAliases(p *load.Program) {
+	if aliasesFor == p {
+		return
+	}
+	aliasesFor = p
+	astx.Alias = map[types.Object]ast.Expr{}
+	for _, fi := range p.AllFuncs {
+		body := fi.Body()
+		if body == nil {
+			continue
+		}
+		info := fi.Info()
+		defs := map[types.Object][]ast.Expr{} // := / var definitions with a 1:1 value
+		unstable := map[types.Object]bool{}   // reassigned, inc/dec'd, address taken, multi-value defined
+		rangeVar := map[types.Object]bool{}
+		fieldWritten := map[types.Object]bool{} // fields assigned anywhere in the function
+		elemWritten := map[types.Object]bool{}  // variables (or fields) whose elements are assigned
+		noteWrite := func(l ast.Expr) {
+			switch t := ast.Unparen(l).(type) {
+			case *ast.Ident:
+				if o := astx.Obj(info, t); o != nil {
+					unstable[o] = true
+				}
+			case *ast.SelectorExpr:
+				if fv := astx.FieldSel(info, t); fv != nil {
+					fieldWritten[fv] = true
+				}
+			case *ast.IndexExpr:
+				switch b := ast.Unparen(t.X).(type) {
+				case *ast.Ident:
+					if o := astx.Obj(info, b); o != nil {
+						elemWritten[o] = true
+					}
+				case *ast.SelectorExpr:
+					if fv := astx.FieldSel(info, b); fv != nil {
+						elemWritten[fv] = true
+					}
+				}
+			}
+		}
+		ast.Inspect(fi.Node(), func(n ast.Node) bool {
+			switch x := n.(type) {
+			case *ast.AssignStmt:
+				for i, l := range x.Lhs {
+					id, isID := l.(*ast.Ident)
+					if x.Tok == token.DEFINE && isID && info.Defs[id] != nil {
+						o := info.Defs[id]
+						if len(x.Lhs) == len(x.Rhs) {
+							defs[o] = append(defs[o], x.Rhs[i])
+						} else {
+							unstable[o] = true
+						}
+						continue
+					}
+					noteWrite(l)
+				}
+			case *ast.ValueSpec:
+				for i, id := range x.Names {
+					o := info.Defs[id]
+					if o == nil {
+						continue
+					}
+					if len(x.Values) == len(x.Names) {
+						defs[o] = append(defs[o], x.Values[i])
+					} else {
+						unstable[o] = true // zero value or multi-value
+					}
+				}
+			case *ast.IncDecStmt:
+				noteWrite(x.X)
+			case *ast.RangeStmt:
+				for _, e := range []ast.Expr{x.Key, x.Value} {
+					if id, ok := e.(*ast.Ident); ok {
+						if x.Tok == token.DEFINE && info.Defs[id] != nil {
+							rangeVar[info.Defs[id]] = true
+						} else if o := astx.Obj(info, id); o != nil {
+							unstable[o] = true
+						}
+					} else if e != nil {
+						noteWrite(e)
+					}
+				}
+			case *ast.UnaryExpr:
+				if x.Op == token.AND {
+					if id, ok := ast.Unparen(x.X).(*ast.Ident); ok {
+						if o := astx.Obj(info, id); o != nil {
+							unstable[o] = true
+						}
+					}
+				}
+			}
+			return true
+		})
+		isLocal := func(o types.Object) bool {
+			v, ok := o.(*types.Var)
+			return ok && !v.IsField() && v.Pkg() != nil && v.Parent() != v.Pkg().Scope()
+		}
+		stableVar := func(o types.Object) bool {
+			if !isLocal(o) || unstable[o] {
+				return false
+			}
+			if rangeVar[o] {
+				return true
+			}
+			if d, ok := defs[o]; ok {
+				return len(d) == 1
+			}
+			// parameter / receiver / named result: stable when never assigned (named results are assigned by returns: exclude)
+			return o.Pos() < body.Pos()
+		}
+		isIrcMessageField := func(fv *types.Var) bool {
+			return fv != nil && fv.Pkg() != nil && strings.HasSuffix(fv.Pkg().Path(), "sorcix/irc")
+		}
+		var stable func(e ast.Expr, depth int) bool
+		stable = func(e ast.Expr, depth int) bool {
+			e = ast.Unparen(e)
+			if e == nil || depth > 12 {
+				return false
+			}
+			if tv, ok := info.Types[e]; ok && tv.Value != nil {
+				return true
+			}
+			switch x := e.(type) {
+			case *ast.BasicLit:
+				return true
+			case *ast.Ident:
+				o := astx.Obj(info, x)
+				if o == nil {
+					return false
+				}
+				if _, ok := o.(*types.Const); ok {
+					return true
+				}
+				return stableVar(o) && !elemWritten[o]
+			case *ast.SelectorExpr:
+				if _, ok := info.Selections[x]; !ok {
+					_, isConst := info.Uses[x.Sel].(*types.Const)
+					return isConst
+				}
+				fv := astx.FieldSel(info, x)
+				return isIrcMessageField(fv) && !fieldWritten[fv] && !elemWritten[fv] && stable(x.X, depth+1)
+			case *ast.IndexExpr:
+				tv, ok := info.Types[x.X]
+				if !ok {
+					return false
+				}
+				switch tv.Type.Underlying().(type) {
+				case *types.Slice, *types.Array, *types.Basic:
+				default:
+					return false
+				}
+				return stable(x.X, depth+1) && stable(x.Index, depth+1)
+			case *ast.SliceExpr:
+				for _, p := range []ast.Expr{x.Low, x.High, x.Max} {
+					if p != nil && !stable(p, depth+1) {
+						return false
+					}
+				}
+				return stable(x.X, depth+1)
+			case *ast.BinaryExpr:
+				return stable(x.X, depth+1) && stable(x.Y, depth+1)
+			case *ast.UnaryExpr:
+				return (x.Op == token.NOT || x.Op == token.SUB || x.Op == token.ADD || x.Op == token.XOR) && stable(x.X, depth+1)
+			case *ast.CallExpr:
+				if tv, ok := info.Types[x.Fun]; ok && tv.IsType() {
+					return len(x.Args) == 1 && stable(x.Args[0], depth+1)
+				}
+				fn := astx.Callee(info, x)
+				if fn == nil || fn.Pkg() == nil {
+					return false
+				}
+				if sig, ok := fn.Type().(*types.Signature); !ok || sig.Recv() != nil {
+					return false
+				}
+				pure := fn.Pkg().Path() == "strings" || (strings.HasPrefix(fn.Pkg().Path(), load.ModPath) && pureModuleFuncs[fn.Name()])
+				if !pure {
+					return false
+				}
+				for _, a := range x.Args {
+					if !stable(a, depth+1) {
+						return false
+					}
+				}
+				return true
+			}
+			return false
+		}
+		for o, d := range defs {
+			if len(d) != 1 || unstable[o] || !isLocal(o) || d[0] == nil {
+				continue
+			}
+			if stable(d[0], 0) {
+				astx.Alias[o] = d[0]
+			}
+		}
+	}
+}
+
+// fname is the short name the rules know a function by: its current name, or the recorded name when the function was
+// re-identified after a rename (load/anchors.go).
+func fname(fn *types.Func) string {
+	if fn == nil {
+		return ""
+	}
+	full := load.FuncName(fn)
+	return full[strings.LastIndex(full, ".")+1:]
+}
+
+// extraAnchors: functions, constants and variables the rules recognise by name inside expressions (rather than looking
+// them up once); listing them here records their structural description in anchors.json, so that they survive a rename.
+var extraAnchors = []string{
+	"ircserver.(*IRCServer).sendUser", "ircserver.(*IRCServer).sendAllUsers", "ircserver.(*IRCServer).sendCommonChannels",
+	"ircserver.(*IRCServer).sendChannel", "ircserver.(*IRCServer).sendChannelButOne", "ircserver.(*IRCServer).sendServices",
+	"ircserver.servicesPrefix", "ircserver.(*IRCServer).getSessionLocked", "ircserver.(*IRCServer).verifyCaptcha",
+	"ircserver.(*IRCServer).maybeDeleteChannelLocked", "main.joinMaster", "main.writeLenPrefixed", "main.(*FSM).sessionExpiration",
+	"ircserver.(*IRCServer).createSessionLocked", "ircserver.(*IRCServer).deleteSessionLocked", "ircserver.(*IRCServer).interestedIn",
+	"api.(*HTTP).maybeProxyToLeader", "main.(*FSM).getSnapshotState", "ircserver.banned",
+	// fields recognised by name in switch statements
+	"ircserver.channel.modes", "ircserver.channel.key", "ircserver.channel.bans", "ircserver.channel.topic", "ircserver.channel.topicNick",
+	"ircserver.channel.topicTime", "ircserver.channel.nicks", "ircserver.Session.modes", "ircserver.Session.svid", "ircserver.Session.invitedTo",
+	"ircserver.Session.ircPrefix", "ircserver.Session.loggedIn", "ircserver.Session.deleted", "ircserver.Session.throttlingExponent",
+	"ircserver.Session.lastSolvedCaptcha", "ircserver.Session.lastNonPing", "ircserver.Session.lastClientMessageId",
+	// the lock table of C20 and the locks themselves
+	"ircserver.IRCServer.sessions", "ircserver.IRCServer.nicks", "ircserver.IRCServer.channels", "ircserver.IRCServer.svsholds",
+	"ircserver.IRCServer.serverSessions", "ircserver.IRCServer.lastProcessed", "ircserver.IRCServer.sessionsMu", "ircserver.IRCServer.lastProcessedMu",
+	"outputstream.OutputStream.db", "outputstream.OutputStream.batch", "outputstream.OutputStream.lastseen", "outputstream.OutputStream.messagesCache",
+	"outputstream.OutputStream.messagesMu", "outputstream.OutputStream.cacheMu", "outputstream.OutputStream.newMessage",
+	"raftstore.LevelDBStore.db", "raftstore.LevelDBStore.mu",
+	"api.HTTP.ircServerUnlocked", "api.HTTP.ircStoreUnlocked", "api.HTTP.outputUnlocked", "api.HTTP.mu", "api.HTTP.getMessagesRequests",
+	"api.HTTP.getMessagesRequestsMu", "api.HTTP.lastWrongPassword", "api.HTTP.throttlingExponent", "api.HTTP.throttleMu",
+	"main.FSM.sessionExpirationDur", "main.FSM.sessionExpirationMu", "main.FSM.ircstore", "main.FSM.store", "main.FSM.lastSnapshotState",
+	"main.FSM.skipDeletionForCanary", "main.FSM.restoreMu",
 }
